@@ -20,7 +20,7 @@ func init() {
 	registerLeg("c05-opt", "C05", legC05Opt)
 }
 
-var c05OptMasks = []uint32{31, 0, 30, 29, 27, 23, 15, 24}
+var c05OptMasks = []uint32{31, 0, 30, 29, 27, 23, 15, 16}
 
 var c05FamilyOfMask = map[uint32]string{30: "1 auto-atomic", 29: "2 ending backtracking", 27: "4 bump-along", 23: "8 atomic alternation", 15: "16 prefix factoring"}
 
@@ -201,7 +201,7 @@ type c05optEntry struct {
 }
 
 func legC05Opt(c *Ctx) {
-	c.Rule("(1) exact reference: the model of syntax.Parse under a gate mask (coq/Model/FinalOptParse.v = the main loop of Model/Parser.v over the gated reducer of Model/FinalOpt.v, then finalOptimize's passes; model leg 502) must give EXACTLY the real tree compiled under mask g (T, Options, Ch, M, N, Str, CharSet fields, children), g in {31, 0, 30, 29, 27, 23, 15, 24}: findAndMakeLoopsAtomic / processNode / canBeMadeAtomic with the walk to the root, eliminateEndingBacktracking with FindLastExpressionInLoopForAutoAtomic, the bump-along marker, reduceAtomic's alternation trimming / reordering, reduceAlternation's two prefix extractions. (2) the post-pass the theorems are about (Model/FinalOpt.fo_final_optimize, model leg 501) applied to the REAL tree compiled with every family off (mask 31) is compared with the same real tree under g; it must agree except where the gate-31 tree does not carry what the gated parse looked at (counted by class; coverage gate: at most 1% of the compared trees). Patterns: the c05-gates shapes and the shapes of this leg x {none, i, s, m, RightToLeft, ECMAScript}, patterns printed from random ASTs, harvested test patterns, the c10-parse corpus. Side conditions of the theorems are evaluated per tree under mask 24 (the three families of finalOptimize on, the two alternation families off: the masks C05_final_optimize_sound_partial covers) (histogram): strict-nb (no \\B stepped over before the end of the expression), strict-bal (no walk through a balancing capture), lite (the mandatory reducers are the identity wherever a gated branch re-reduces). non-trivial = the real tree under g differs from the tree under 31 (distinct by pattern, options, mask)")
+	c.Rule("(1) exact reference: the model of syntax.Parse under a gate mask (coq/Model/FinalOptParse.v = the main loop of Model/Parser.v over the gated reducer of Model/FinalOpt.v, then finalOptimize's passes; model leg 502) must give EXACTLY the real tree compiled under mask g (T, Options, Ch, M, N, Str, CharSet fields, children), g in {31, 0, 30, 29, 27, 23, 15, 16}: findAndMakeLoopsAtomic / processNode / canBeMadeAtomic with the walk to the root, eliminateEndingBacktracking with FindLastExpressionInLoopForAutoAtomic, the bump-along marker, reduceAtomic's alternation trimming / reordering, reduceAlternation's two prefix extractions. (2) the post-pass the theorems are about (Model/FinalOpt.fo_final_optimize, model leg 501) applied to the REAL tree compiled with every family off (mask 31) is compared with the same real tree under g; it must agree except where the gate-31 tree does not carry what the gated parse looked at (counted by class; coverage gate: at most 1% of the compared trees). Patterns: the c05-gates shapes and the shapes of this leg x {none, i, s, m, RightToLeft, ECMAScript}, patterns printed from random ASTs, harvested test patterns, the c10-parse corpus. Side conditions of the theorems are evaluated per tree under mask 16 (every family on but prefix factoring: the widest mask C05_final_optimize_sound_partial covers) (histogram): strict-nb (no \\B stepped over before the end of the expression), strict-bal (no walk through a balancing capture), strict-desc (no walk up out of an atomic group the walk descended into), strict-rtl-lead (no RightToLeft One/Multi node keys a branch in reduceAtomic), lite (the mandatory reducers are the identity wherever a gated branch re-reduces). non-trivial = the real tree under g differs from the tree under 31 (distinct by pattern, options, mask)")
 	type pc struct {
 		pat  string
 		o    syntax.RegexOptions
@@ -283,10 +283,10 @@ func legC05Opt(c *Ctx) {
 				continue
 			}
 			// the all-off mask and unchanged trees are compared for a sample only
-			if !differs && g != 0 && g != 24 && !c.Rng.Chance(c.N(12, 40)) {
+			if !differs && g != 0 && g != 16 && !c.Rng.Chance(c.N(12, 40)) {
 				continue
 			}
-			if g == 24 && !((differs && c.Rng.Chance(c.N(50, 100))) || c.Rng.Chance(4)) {
+			if g == 16 && !((differs && c.Rng.Chance(c.N(50, 100))) || c.Rng.Chance(4)) {
 				continue
 			}
 			e := &c05optEntry{desc: desc + ": real tree " + strings.ReplaceAll(tg.Dump(), "\n", " / "), key: fmt.Sprintf("%q/%d/%d", p.pat, int(p.o), g),
@@ -300,7 +300,7 @@ func legC05Opt(c *Ctx) {
 				e.class = "expression conditionals with and without a lookahead condition (ending-backtracking removal on)"
 			}
 			ents = append(ents, e)
-			if g == 24 && len(flagIns) < c.N(450, 20000) {
+			if g == 16 && len(flagIns) < c.N(450, 20000) {
 				flagLegs = append(flagLegs, 501)
 				flagIns = append(flagIns, c05optModelInWith(g, true, condLook, tail501))
 				flagDesc = append(flagDesc, desc)
@@ -394,12 +394,8 @@ func legC05Opt(c *Ctx) {
 				}
 				fl := o[len(o)-7:]
 				all := true
-				for j, nm := range []string{"strict-nb fails (a \\B stepped over before the end of the expression)", "strict-bal fails (a balancing capture on the way)", "strict-desc fails (walk up out of an atomic group the walk descended into)", "(covered by the theorem) FindLastExpressionInLoopForAutoAtomic fired in eliminateEndingBacktracking", "lite fails (a mandatory reducer changes a re-reduced node)", "fo_wf fails (the shape facts the theorems assume)", "theorem model differs (strict 7 + lite)"} {
+				for j, nm := range []string{"strict-nb fails (a \\B stepped over before the end of the expression)", "strict-bal fails (a balancing capture on the way)", "strict-desc fails (walk up out of an atomic group the walk descended into)", "strict-rtl-lead fails (reduceAtomic keyed a branch by a One/Multi node with the RightToLeft bit)", "lite fails (a mandatory reducer changes a re-reduced node)", "fo_wf fails (the shape facts the theorems assume)", "theorem model differs (strict 15 + lite)"} {
 					if fl[j] == 0 {
-						if j == 3 {
-							c.Hist("side-condition info " + nm)
-							continue
-						}
 						all = false
 						c.Hist("side-condition " + nm)
 						if os.Getenv("VERIF_C05_DEBUG") != "" {
